@@ -270,7 +270,8 @@ def run(ctx) -> None:
     ctx.analysed(ep)
     c2 = CFG(ep)
     ctx.paths += c2.paths_count()
-    key_loops = [n for n in source.walk_own(ep) if isinstance(n, ast.For) and isinstance(n.iter, ast.Name) and n.iter.id == "manifest"
+    # the deployment loop: the for loop over a mapping (a plain name) that creates the entries
+    key_loops = [n for n in source.walk_own(ep) if isinstance(n, ast.For) and isinstance(n.iter, ast.Name) and isinstance(n.target, ast.Name)
                  and any(call_name(c) in ("shutil.copytree", "os.symlink") for c in source.calls_in(n))]
     ctx.require(bool(key_loops), "anchor missing: deployment loop over the manifest in expandPackageToDirectory")
     lp = key_loops[0]
